@@ -9,6 +9,8 @@ use serde_json::{json, Value};
 
 mod afftree;
 mod arena;
+mod history;
+mod schema;
 mod regions;
 mod tj;
 mod util;
@@ -33,7 +35,7 @@ fn run_script(sc: &Value, id: usize, out: Out) {
     match fam {
         "arena" => arena::run(sc, id, out),
         "iter" => arena::run_iter(sc, id, out),
-        "afftree" => afftree::run(sc, id, out),
+        "afftree" => if sc.get("mode").and_then(|m| m.as_str()) == Some("history") { history::run(sc, id, out) } else { afftree::run(sc, id, out) },
         "regions" => regions::run(sc, id, out),
         _ => out(json!({"fam": fam, "sc": id, "ev": "unknown_family"})),
     }
